@@ -99,7 +99,7 @@ pub fn check_points(ctx: &Ctx, pts: &[(f64, f64)]) -> Check {
 }
 
 pub fn run(ctx: &Ctx) {
-    ctx.set_rule("true points from 9 strata (uniform sphere, +-50 grid steps around each of the 58 NL transitions, +-87 deg +-3 m and exactly on the grid, poles, equator, even/odd latitude-zone edges, special meridians); each encoded even+odd by an independent DO-260B encoder, wrapped in DF17 frames (every airborne type code, any altitude code, any address), decoded by Message::try_from and airborne_position in both orders; equal parities: the same report twice, and two different reports (second point 1 m to 1000 km away, other altitude and type code) in both orders. Plus sequences of related points (a whole number of latitude zones apart, then the first again) on one thread. Non-trivial = an ordered pair that returned a position; distinct by (YZ0,XZ0,YZ1,XZ1,order).");
+    ctx.set_rule("true points from 10 strata (latitude-count boundaries within 2.5 bins of every latitude-zone edge; uniform sphere, +-50 grid steps around each of the 58 NL transitions, +-87 deg +-3 m and exactly on the grid, poles, equator, even/odd latitude-zone edges, special meridians); each encoded even+odd by an independent DO-260B encoder, wrapped in DF17 frames (every airborne type code, any altitude code, any address), decoded by Message::try_from and airborne_position in both orders; equal parities: the same report twice, and two different reports (second point 1 m to 1000 km away, other altitude and type code) in both orders. Plus sequences of related points (a whole number of latitude zones apart, then the first again) on one thread. Non-trivial = an ordered pair that returned a position; distinct by (YZ0,XZ0,YZ1,XZ1,order).");
     ctx.assume("independent CPR encoder and closed-formula NL (pinned by the published example pair and table values)");
     ctx.assume("cases whose recovered latitude is within 1e-7 deg of an inexact NL transition are excluded (counted); +-87 is exact and not excluded");
     let cases = ctx.tier.pick(640_000u32, 8_000_000u32);
@@ -153,6 +153,23 @@ pub fn run(ctx: &Ctx) {
         }
     }
     ctx.class_n("transition-grid-sweep points", n);
+    // deterministic sweep: every count boundary within 2.5 bins of every latitude-zone edge of both formats, both bin
+    // sizes, 1 mm .. 2 cm on either side, both hemispheres, three longitudes
+    let mut nb = 0u64;
+    'bins: for k in 0..512u32 {
+        for a in [0.0, 0.25, 0.45, 0.4975, 0.5025, 0.55, 0.75, 0.999] {
+            let (la, _) = vcore::geo_gen::bin_edge_point(k, a);
+            for sgn in [1.0, -1.0] {
+                for lon in [-179.99, 33.0, 123.456] {
+                    nb += 1;
+                    if !ctx.judge(check_point(ctx, sgn * la, lon)) {
+                        break 'bins;
+                    }
+                }
+            }
+        }
+    }
+    ctx.class_n("count boundaries next to latitude-zone edges (sweep)", nb);
     ctx.sample(json!({"lat": 87.0, "lon": 10.0, "stratum": "lat87-exact (regress)"}));
 }
 
